@@ -6,6 +6,16 @@ import os
 VERIF = os.path.dirname(os.path.dirname(os.path.abspath(__file__)))
 
 CLAIMED = {
+    "C13": dict(
+        engine="store", category="model_checking", design_ref="DESIGN.md §7 C13",
+        technique="TLA+ specs RdfStore.tla (set semantics of every lookup) and MC_RdfIndex.tla (index mechanism mirrors the set, model-checked by TLC); recorded histories of the real RdfStore validated by TLC with the full projection after every call",
+        text="TLC checks that the subject/predicate/object index mechanism mirrors the set over all histories of the bounded model; every call result and the complete projection (find for all 48 bound/unbound patterns, triples_with_*, term listings, len, stats, contains, find_with_pending) of random insert/remove/clear/transactional-buffer histories on the real store, with and without the object index, over IRIs / blank nodes / plain, language-tagged and typed literals, is validated against the set semantics, each result once.",
+        note="SPARQL evaluation over the set (second sentence of C13) is not covered by this check; only the store part is claimed."),
+    "C20": dict(
+        engine="conc", category="model_checking", design_ref="DESIGN.md §7 C20",
+        technique="TLA+ specs RdfConc / TxConc / BufMgr (one action per critical section) model-checked by TLC over all interleavings; real threads run under a yield-point controller (cfg grafeo_verif) with enumerated, random and TLC-counterexample schedules; recorded schedules validated against the specs by TLC",
+        text="TLC explores every interleaving of 2-3 threads x 2-4 operations at critical-section granularity (index/primary agreement and linearizability of the triple store, first-committer-wins and dense unique commit epochs of the transaction manager, hard limit and zero-at-end of the memory manager) and finds the counterexample schedules of the as-is switches; the same programs run on real threads under the controller, and every recorded schedule with its return values and quiescent projection is validated against the spec.",
+        note="Granularity = yield points between critical sections; sequential consistency assumed. LpgStore lock sequences, catalog, query cache and HNSW are not modelled yet (sub-claims uncovered)."),
     "C01": dict(
         engine="txn", category="model_checking", design_ref="DESIGN.md §7 C01",
         technique="TLA+ spec Mvcc.tla (as-is MVCC mechanism + ideal snapshot views) explored by TLC; TLC-generated behaviours replayed through real sessions; recorded histories validated by TLC with every read kind of every session after every step",
@@ -41,6 +51,10 @@ CLAIMED = {
 REASON_PENDING = "not claimed yet in this round: specification and conformance binding for this property are designed (DESIGN.md §7) but not built; no check is registered rather than an unsound one"
 
 ENGINES = [
+    dict(name="store", path="spec/store", serves_properties=["C13"],
+         kind_free_text="TLA+ RdfStore.tla / MC_RdfIndex.tla (+Trace_RdfStore) checked by TLC; harness `gv rdf`"),
+    dict(name="conc", path="spec/conc", serves_properties=["C20", "C03"],
+         kind_free_text="TLA+ per-critical-section models checked by TLC; harness `gv conc` (yield-point controller, schedule enumeration) and `gv txstress`"),
     dict(name="wal", path="spec/wal", serves_properties=["C05", "C06"],
          kind_free_text="TLA+ Wal.tla (+Trace_Wal) checked by TLC; Rust harness `gv wal` drives a persistent GrafeoDB, reads the cfg(grafeo_verif) WAL hook, builds crash images"),
     dict(name="txn", path="spec/txn", serves_properties=["C01", "C02", "C03", "C04"],
